@@ -97,7 +97,7 @@ def run(ctx):
     prng = ctx.rng
     rcases = []
     for _ in range(ctx.scale(400, 10000)):
-        b = prng.choice([0, 0, 5, -100])
+        b = prng.choice([0, 0, 5, 100])      # no negative bounds: the output format uses negative markers
         n = prng.choice([1, 2, 7, 100, 1000, 2 ** 20, 2 ** 40])
         g = prng.choice([1, 1, 2, 10])
         c = [b, b + n, g]
